@@ -619,6 +619,9 @@ func firstLines(s string, n int) string {
 
 func writeEvidence(check *Check, tier string, st *Stats, start time.Time, nviol, nknown int) {
 	states := len(st.Outcomes)
+	if v, ok := st.Counters["abstract_states"]; ok && int(v) > states {
+		states = int(v)
+	}
 	if states == 0 {
 		states = 1
 	}
@@ -657,6 +660,7 @@ func writeEvidence(check *Check, tier string, st *Stats, start time.Time, nviol,
 		"sets_capped":                   st.OutcomesCapped,
 		"nontrivial_executions":         st.Nontrivial,
 		"witnesses":                     st.Witnesses,
+		"counters":                      st.Counters,
 		"per_scenario_executions":       perSc,
 		"uncontrolled_maps":             st.Uncontrolled,
 		"known_findings_reported":       nknown,
